@@ -63,11 +63,23 @@ impl Obs {
     }
 }
 
-pub struct Case { pub init: (u8, u16), pub maxp: u8, pub ops: Vec<Op> }
+pub struct Case { pub init: (u8, u16), pub maxp: u8, pub tcp: bool, pub ops: Vec<Op> }
 
 /// Execute a case on the real IceConn; returns the observation after init and after every op.
 pub fn exec(rt: &tokio::runtime::Runtime, c: &Case) -> Vec<Obs> {
-    let (_tx, rx) = watch::channel::<Option<IceSocketWrapper>>(None);
+    // tcp = the selected socket is an accepted TCP stream (a real loopback pair; only the variant matters)
+    let sock: Option<IceSocketWrapper> = if c.tcp {
+        Some(rt.block_on(async {
+            let l = tokio::net::TcpListener::bind("127.0.0.1:0").await.unwrap();
+            let a = l.local_addr().unwrap();
+            let (c1, acc) = tokio::join!(tokio::net::TcpStream::connect(a), l.accept());
+            let _keep = c1.unwrap();
+            let (st, peer) = acc.unwrap();
+            let (r, w) = st.into_split();
+            IceSocketWrapper::TcpStream(Arc::new(tokio::sync::Mutex::new(r)), Arc::new(tokio::sync::Mutex::new(w)), peer)
+        }))
+    } else { None };
+    let (_tx, rx) = watch::channel::<Option<IceSocketWrapper>>(sock);
     let conn: Arc<IceConn> = hook::new_with_rtcp(rx.clone(), rx, sa(c.init.0, c.init.1),
         if c.maxp == 0 { None } else { Some(c.maxp) });
     let log = Arc::new(Rec(Mutex::new(vec![]), "rtp"));
@@ -159,7 +171,7 @@ pub fn oracles(c: &Case, obs: &[Obs]) -> Vec<(String, String)> {
     let mut rtcp_changes = 0;
     for (i, op) in c.ops.iter().enumerate() {
         let (before, after) = (&obs[i], &obs[i + 1]);
-        let wf = before.remote.1 != 0; // destination configured (UDP case only in this harness)
+        let wf = before.remote.1 != 0 && !c.tcp; // configured destination on a datagram socket
         match op {
             Op::Pkt(ip, port, b) => {
                 let a = (*ip, *port);
@@ -266,7 +278,7 @@ pub const NSYM: usize = 21;
 
 fn emit(run: &mut Run, rt: &tokio::runtime::Runtime, c: &Case) {
     let obs = exec(rt, c);
-    let input = format!("init,{},{},{},0 {}", c.init.0, c.init.1, c.maxp,
+    let input = format!("init,{},{},{},{} {}", c.init.0, c.init.1, c.maxp, c.tcp as u8,
         c.ops.iter().map(op_text).collect::<Vec<_>>().join(" "));
     let out = obs.iter().map(|o| o.text()).collect::<Vec<_>>().join(" ");
     let committed = obs.iter().any(|o| o.latched);
@@ -281,7 +293,7 @@ fn emit(run: &mut Run, rt: &tokio::runtime::Runtime, c: &Case) {
 }
 
 pub fn run(args: &Args) {
-    let rt = tokio::runtime::Builder::new_current_thread().build().unwrap();
+    let rt = tokio::runtime::Builder::new_current_thread().enable_all().build().unwrap();
     let mut run = Run::new("c18", &args.out);
     if let Some(case) = &args.replay {
         let c = parse_case(case);
@@ -292,14 +304,16 @@ pub fn run(args: &Args) {
     }
     // (1) exhaustive: all sequences of length L over the 21-symbol alphabet, after `ss,SSRC ra en`
     let (len, settings): (usize, Vec<u8>) = if args.tier_thorough { (4, vec![0, 1, 2, 3, 4, 6, 8]) } else { (3, vec![0, 1, 2, 3, 4, 5, 6, 7, 8]) };
-    for &maxp in &settings {
+    let mut plan: Vec<(usize, u8)> = settings.iter().map(|&m| (len, m)).collect();
+    if args.tier_thorough { plan.push((5, 3)); plan.push((5, 6)); }
+    for &(len, maxp) in &plan {
         let n = NSYM.pow(len as u32);
         for idx in 0..n {
             let mut al = Alpha::new();
             let mut ops = vec![Op::Ssrc(SSRC), Op::RtcpAddr(Some((1, 5101))), Op::Enable];
             let mut k = idx;
             for _ in 0..len { ops.push(al.sym(k % NSYM)); k /= NSYM; }
-            emit(&mut run, &rt, &Case { init: (1, 5001), maxp, ops });
+            emit(&mut run, &rt, &Case { init: (1, 5001), maxp, tcp: false, ops });
         }
         run.count_n(&format!("exhaustive_len{len}_maxp{maxp}"), n as u64);
     }
@@ -335,7 +349,9 @@ pub fn run(args: &Args) {
                 else { Op::RtcpAddr(if rng.chance(1, 3) { None } else { Some((2, 5102)) }) };
             ops.push(op);
         }
-        emit(&mut run, &rt, &Case { init, maxp, ops });
+        let tcp = rng.chance(1, 25);
+        if tcp { run.count("random_tcp_socket_cases"); }
+        emit(&mut run, &rt, &Case { init, maxp, tcp, ops });
     }
     run.count_n("random_sequences", nrand);
     run.exhaustive = true;
@@ -360,5 +376,5 @@ pub fn parse_case(s: &str) -> Case {
             x => panic!("bad op {x}"),
         });
     }
-    Case { init: (init[1].parse().unwrap(), init[2].parse().unwrap()), maxp: init[3].parse().unwrap(), ops }
+    Case { init: (init[1].parse().unwrap(), init[2].parse().unwrap()), maxp: init[3].parse().unwrap(), tcp: init.get(4) == Some(&"1"), ops }
 }
